@@ -390,13 +390,31 @@ fn nuts_rows(ctx: &Ctx) {
         }
     });
     // multi-chain runner == its chains run individually
-    let ns: Vec<usize> = if ctx.tier.thorough() { (1..=8).collect() } else { vec![1, 2, 3, 8] };
-    ns.par_iter().for_each(|&n| {
+    // (n chains, worker threads of the pool the call runs in; 0 = the global pool). More chains than workers is a
+    // configuration of its own (chains are then processed in waves), so it is enumerated on both sides:
+    // pools of 1 and 2 workers, and the global pool with T+1 / T+3 chains.
+    let t_glob = rayon::current_num_threads();
+    let mut ns: Vec<(usize, usize)> = if ctx.tier.thorough() { (1..=8).map(|n| (n, 0)).collect() } else { vec![(1, 0), (2, 0), (3, 0), (8, 0)] };
+    ns.extend([(t_glob + 1, 0), (t_glob + 3, 0), (2, 1), (3, 1), (3, 2), (5, 2)]);
+    if ctx.tier.thorough() {
+        ns.extend([(2 * t_glob + 1, 0), (1, 1), (4, 1), (2, 2), (4, 2), (8, 2), (4, 3), (7, 3)]);
+    }
+    ns.par_iter().for_each(|&(n, pool_threads)| {
+        let pool = if pool_threads > 0 { rayon::ThreadPoolBuilder::new().num_threads(pool_threads).build().ok() } else { None };
+        if pool_threads > 0 && pool.is_none() {
+            ctx.machinery_error("cannot build a rayon pool for the NUTS runner check");
+            return;
+        }
+        ctx.outcome(if n > if pool_threads > 0 { pool_threads } else { t_glob } { "NUTS runner: more chains than pool workers" } else { "NUTS runner: chains <= pool workers" }, 1);
         for (c, d, common) in [(3usize, 2usize, false), (1, 0, false), (2, 0, true), (4, 3, true), (3, 2, true)] {
-            let case = json!({"kind": "nuts-multi", "n_chains": n, "n_collect": c, "n_discard": d, "common_start": common});
+            let case = json!({"kind": "nuts-multi", "n_chains": n, "pool_threads": pool_threads, "n_collect": c, "n_discard": d, "common_start": common});
             ctx.evals(1);
             ctx.transitions(2);
-            let r = catch(|| {
+            let in_pool = |f: &mut (dyn FnMut() -> ([usize; 3], Vec<f64>, Vec<f64>) + Send)| match &pool {
+                Some(p) => p.install(|| f()),
+                None => f(),
+            };
+            let r = catch(|| in_pool(&mut || {
                 let mut a = nuts_build::<f64, BF64>(n, Some(9), common);
                 let mut b = a.clone();
                 let ta = a.run(c, d);
@@ -415,7 +433,7 @@ fn nuts_rows(ctx: &Ctx) {
                 multi.extend(v(&tb));
                 solo.extend(solo2);
                 (dims, multi, solo)
-            });
+            }));
             match r {
                 Err(m) => ctx.violation(Violation::new("C09:panic(NUTS)", format!("NUTS::run({c},{d}) with {n} chains panicked: {m}"), case)),
                 Ok((dims, multi, solo)) => {
